@@ -65,7 +65,7 @@ HOSTILE_TARGETS = [
     "http://", "http:///x", "http://a@b@c/", "http://[::1]x/", "http://[:::1]/", "http://a:-1/", "http://a: 80/", "?", "#", "a", "http:a",
     "http://\udcff/", "http://a\\b/", "http://%zz/", "/%zz", "/%", "http://[fe80::1%25eth0]/", "http://[fe80::1%eth0]/", "*", "a:80", "[::1]:80",
     "http://a:65536/", "http://a:0x50/", "http://[", "http://]", "https://:443", "http://a..b/", "http://.a/", "http://xn--/", "http://a_b/",
-    "http://℀/", "http://\xe9.com/", "http://a%00b/", "http://0x7f.1/", "ws://a/", "file:///etc/passwd", "http://a:80:80/",
+    "\udcff", "a\udc80", "\udcff/x", "x\udced\udca0\udc80", "\udcc3(", "http:\udcff", "*\udcff", "\udcff:80", "http://℀/", "http://\xe9.com/", "http://a%00b/", "http://0x7f.1/", "ws://a/", "file:///etc/passwd", "http://a:80:80/",
 ]
 
 
@@ -74,7 +74,7 @@ def hostile(draw):
     method = draw(st.sampled_from(["GET", "OPTIONS", "CONNECT", "POST"]))
     target = draw(st.one_of(
         st.sampled_from(HOSTILE_TARGETS),
-        st.text(alphabet=st.sampled_from("[]:@/?#%.\\ah0-~_1\xff\x80"), min_size=1, max_size=12),
+        st.text(alphabet=st.sampled_from(list("[]:@/?#%.\\ah0-~_1\xff\x80") + ["\udcff", "\udc80", "\udcc3"]), min_size=1, max_size=12),
         st.text(alphabet=st.sampled_from("[]:@/%.a0"), min_size=1, max_size=10).map(lambda t: "http://" + t),
     ))
     host = draw(st.sampled_from(["a", "[::1", "a:b", "", "\xff", "a:99999999", "[::1]:x"]))
